@@ -38,6 +38,7 @@ def base_step(genotype: A[i1, 2], reads: A[f8, 3], llk: float, h: int, j: int, n
 @contract("mchap.assemble.mutation.compound_step", machine_ints=True, props=["C15"], opt_result={"1": "cache"})
 def compound_step(genotype: A[i1, 2], reads: A[f8, 3], llk: float, n_alleles: A[i8, 1], log_unique_haplotypes: float, inbreeding: float, temp: float, read_counts: Opt[A[i8, 1]], cache: Opt[ArrayMap]) -> Tup[float, Opt[ArrayMap]]:
     requires(len(n_alleles) == genotype.shape[1])
+    requires(len(genotype) * genotype.shape[1] <= 2 ** 48)  # A7 for the (ploidy*n_base, 2) table
     modifies(genotype)
     with loop(0):
         invariant(0 <= h, h <= ploidy, ploidy == len(genotype), n_base == genotype.shape[1], len(substeps) == ploidy * n_base)
